@@ -120,7 +120,7 @@ def _slot_ok_fn(prog, fi, ctor, slot_of, depth=0):
     return n, probs
 
 
-def rule_order(prog, rep, tier):
+def rule_order(prog, rep, tier, only=None):
     """ORDER: in each AST emitter the per-parameter node sequence is an order- and count-preserving image of
     ir["params"].items(): no filter/sort/dedupe in between (except a name-only partition whose complement is consumed),
     the element function never returns None, and the element is named by the parameter's key."""
@@ -130,6 +130,8 @@ def rule_order(prog, rep, tier):
         ("emit.function", "set_arg", lambda c: next((k.value for k in c.keywords if k.arg == "arg"), c.args[0] if c.args else None)),
     ]
     for q, ctor, slot_of in specs:
+        if only is not None and q not in only:
+            continue
         fi = prog.fn(q)
         irp = fi.params()[0]
         sources = [n for n in ast.walk(fi.node) if _is_params_items(n, irp)]
@@ -246,6 +248,8 @@ def self_check(prog, rep, fi, q, fe, at, ctor, slot_of, how):
         n, probs = _slot_ok_fn(prog, tg[0], ctor, slot_of)
     if probs:
         rep.violation(Finding("ORDER", q, "name-slot:%s" % src(fe, 40), "; ".join(sorted(set(probs))), loc(prog, at)))
+    elif n == 0 and isinstance(fe, ast.Lambda):
+        rep.holds("ORDER", inst, loc(prog, at), "one unnamed value per parameter (positional alignment with the named sequence is ALIGN-emit's obligation)")
     elif n == 0:
         rep.ob("ORDER", inst, "unresolved", loc(prog, at), "no %s(...) construction found in the element function" % ctor)
     else:
